@@ -47,7 +47,7 @@ func genString(rt *rapid.T, label string) (s string, class string) {
 	case "empty":
 		s = ""
 	case "nul":
-		s = rapid.SampledFrom([]string{base + "\x00" + base, "\x00" + base, base + "\x00", "\x00"}).Draw(rt, label+"Nul")
+		s = rapid.SampledFrom([]string{base + "\x00" + base, "\x00" + base, base + "\x00", "\x00", "é\x00", base + "/€/" + base + "\x00/c", "𝄞" + base + "\x00"}).Draw(rt, label+"Nul")
 	case "surrogate":
 		s = base + rapid.SampledFrom([]string{"\xed\xa0\x80", "\xed\xbf\xbf", "\xed\xa0\x80\xed\xb0\x80"}).Draw(rt, label+"Seq")
 	case "overlong":
